@@ -61,6 +61,7 @@ func init() {
 		run.Rule("SIB-scan", "constant-time lookups scan every entry exactly once", 5*k)
 
 		convRule := run.Rule("SIB-conv-source", "every representation conversion set*/Set* between different point models computes all output coordinates from its source operand and never reads back a receiver coordinate (sibling uniformity of curve/models.go)", 10*k)
+		formRule := run.Rule("FORMULA", "the serial point formulas, representation changes, neutral elements and their compositions equal the reference formulas (extended twisted Edwards, a = -1) as terms over uninterpreted field operations, modulo commutativity", 22*len(cfgs))
 		pairRule := run.Rule("DT-pairing", "the expanded Pippenger fallback keeps static scalars paired with the points of the static (expanded) operands and dynamic with dynamic", 3*k)
 		generic := c.Prog("purego")
 		pairSets := map[string]string{}
@@ -87,6 +88,9 @@ func init() {
 			sc := esib.CheckMaskedScan(run, p, "SIB-scan")
 			nconv := checkConversionsReadSource(p, convRule)
 			ecfg := &edt.Config{P: p, Mod: modFor(p)}
+			for _, s := range append(c03FormulaSpecs(), c03CompositionSpecs()...) {
+				edt.Check(formRule, ecfg, s)
+			}
 			for _, s := range c03PairingSpecs(p.Obj("curve", "errVectorNotSupported") == nil) {
 				edt.Check(pairRule, ecfg, s)
 			}
